@@ -8,8 +8,10 @@ Environment model (`quic.Stream`, outside the anchored code): the peer's bytes
 4096-byte pipe buffer.  `primed` records whether a slow-path `Read` has already
 moved the remaining bytes into the lock-free `inbuf`: only an un-primed `Read`
 that reaches the end of the stream returns `(n, io.EOF)` with n > 0.
-`dead` models `st.stream = nil` (set by `recordBytesRead` on a limit overrun);
-any later use of the QUIC stream is a nil-pointer panic.
+`dead` models `st.stream = nil`; any later use of the QUIC stream is a nil-pointer panic.
+(Before the repair of C35's finding `recordBytesRead` set it on a limit overrun; the repaired code
+leaves the stream in place and parks `lim` at 0, so no modelled operation sets `dead` any more —
+`Proofs/Lemmas/H3Safe.lean` proves that.)
 `allocs` records every `make([]byte, size)` whose size is peer-controlled as
 `(size, bytes of the stream not yet consumed at that moment)`.
 -/
@@ -86,7 +88,7 @@ def qsRead (s : St) (k : Nat) : Option (List Nat × Bool × St) :=
 /-- `recordBytesRead(n)`. -/
 def recordBytesRead (s : St) (n : Nat) : Out Unit :=
   if s.lim < 0 then .ok () s
-  else if s.lim - n < 0 then .err (.conn cFrameError) { s with lim := s.lim - n, dead := true }
+  else if s.lim - n < 0 then .err (.conn cFrameError) { s with lim := 0 }
   else .ok () { s with lim := s.lim - n }
 
 /-- `(*stream).ReadByte`. -/
